@@ -66,7 +66,7 @@ Theorem C18_failed_action_no_write : forall s e d k src,
   let out := run_step gen_cfg s e d (SBad k src) in
   snd (fst out) = None /\ snd out = Some OErr /\
   views (fst (fst out)) = views s /\ scache (fst (fst out)) = scache s /\
-  eviews (fst (fst out)) = eviews s /\ counter (fst (fst out)) = counter s /\
+  eviews (fst (fst out)) = eviews s /\ counter s <= counter (fst (fst out)) /\
   grows (rg s) (rg (fst (fst out))).
 Proof. exact (failed_action_no_write gen_cfg). Qed.
 Print Assumptions C18_failed_action_no_write.
